@@ -103,7 +103,7 @@ def main():
         'evaluations': counts.get('evaluations', 0),
         'distinct_nontrivial': counts.get('nontrivial', 0),
         'rule': 'Every combination of serializer {XalanXMLSerializerFactory product, legacy FormatterToXML} x encoding {UTF-8, UTF-16, '
-                'ISO-8859-1, US-ASCII, windows-1252 (+Shift_JIS thorough)} x XML version {1.0, 1.1} x item kind {text, attribute value, '
+                'ISO-8859-1, US-ASCII, windows-1252 (ICU transcoder)} x XML version {1.0, 1.1} x item kind {text, attribute value, '
                 'CDATA section (cdata on), comment, PI data, element name, attribute name} x 35 character items (markup characters, TAB/CR/LF, '
                 ']]> ]] ], -- -, ?>, U+0080 U+0085 U+00FF U+0100 U+07FF U+0800 U+2028 U+FFFD U+FFFE U+FFFF U+10000 U+10FFFF, lone '
                 'surrogates, U+0001 U+0008 U+007F U+009F, two spans followed in memory by "]>" / ">"; 5 non-ASCII letters for names) x '
